@@ -28,6 +28,12 @@ func vfH_C12_remote_newer() {
 	env.slock.replicationManager.currentAofId = cur
 	m.ownMember.weight = uint32(vfChoice("weight", 3))
 	m.ownMember.arbiter = uint32(vfChoice("arbiter", 2))
+	// what the acceptor last heard of member C's log, and whether C is reachable at the moment: a member that is
+	// known to hold a newer log makes the proposal unacceptable whether or not it can be reached right now
+	m.members[2].aofId = vfPos("peer")
+	if vfChoice("peerOffline", 2) == 1 {
+		m.members[2].status = ARBITER_MEMBER_STATUS_OFFLINE
+	}
 	v := m.voter
 	v.proposalId, v.commitId = 4, 4
 	aofId := vfPos("aof")
